@@ -7,7 +7,9 @@ func (r Ring) DivFloorByLastModulusNTT(p0, buff, p1 Poly) {
 
 	level := r.level
 
-	r.SubRings[level].INTTLazy(p0.Coeffs[level], buff.Coeffs[0])
+	// The residue modulo the last modulus is re-interpreted modulo the other moduli:
+	// it must be fully reduced, else the quotient is off by one.
+	r.SubRings[level].INTT(p0.Coeffs[level], buff.Coeffs[0])
 
 	for i, s := range r.SubRings[:level] {
 		s.NTTLazy(buff.Coeffs[0], buff.Coeffs[1])
